@@ -443,6 +443,9 @@ class Builtins:
             if E.feasible(st, z3.Not(has)):
                 yield ("val", pos[1] if len(pos) > 1 else None, st.assume(z3.Not(has)))
             return
+        if isinstance(recv, str) and name == "format" and E.options.get("format_model"):
+            # a contract may give the text built from a template and symbolic arguments an abstract identity of its own
+            yield ("val", E.options["format_model"](recv, pos), st); return
         if isinstance(recv, str) and name == "format":
             cs = [conc(p) for p in pos]
             if all(c is not NotConcrete and isinstance(c, (str, int)) for c in cs) and not kw:
